@@ -14,7 +14,7 @@
    ranges `random` guarantees, so `... ds = Ok (out, ds')` ranges exactly over the possible runs. *)
 From Coq Require Import List ZArith NArith Bool.
 From DV Require Import Model.C11_GPTree Model.C11_PSet Proofs.C11_Tree Proofs.C11_Gen Proofs.C11_Ops Proofs.C11_Cx
-  Proofs.C11_PSet Proofs.C11_Main.
+  Proofs.C11_PSet Proofs.C11_Safe Proofs.C11_Main.
 Import ListNotations.
 Local Open Scope Z_scope.
 
@@ -149,6 +149,63 @@ Theorem C11_static_limit_closed : forall (P : list node -> Prop) k maxv op input
   static_limit k maxv op inputs ds = Ok (res, ds') -> Forall P res.
 Proof. exact static_limit_closed. Qed.
 Print Assumptions C11_static_limit_closed.
+
+(* ---- the guards never fire (total correctness modulo the pool hypothesis) ----
+   benign e := e = EDraw (draw list rejected: not a possible run) \/ e = EEmpty (random.choice on an
+   empty pool: the IndexError the real code raises when the set offers nothing at a requested type).
+   So on well-typed trees searchSubtree never runs off the list, height never pops an empty stack and
+   the IndexError / ValueError checks of PrimitiveTree.__setitem__ never trigger. *)
+Theorem C11_generators_fail_only_on_empty_pool : forall ps g ot ds e, 0 <= g_min g <= g_max g ->
+  gen_expr ps g ot ds = Err e -> benign e.
+Proof. exact gen_expr_err. Qed.
+Print Assumptions C11_generators_fail_only_on_empty_pool.
+
+Theorem C11_cx_one_point_safe : forall sub top1 top2 t1 t2 ds e,
+  typed sub top1 t1 -> typed sub top2 t2 ->
+  cx_one_point (flatten t1) (flatten t2) ds = Err e -> benign e.
+Proof. exact cx_one_point_safe. Qed.
+Print Assumptions C11_cx_one_point_safe.
+
+Theorem C11_cx_leaf_biased_safe : forall sub pn pd top1 top2 t1 t2 ds e,
+  typed sub top1 t1 -> typed sub top2 t2 ->
+  cx_leaf_biased pn pd (flatten t1) (flatten t2) ds = Err e -> benign e.
+Proof. exact cx_leaf_biased_safe. Qed.
+Print Assumptions C11_cx_leaf_biased_safe.
+
+Theorem C11_mut_uniform_safe : forall sub ps, pset_ok sub ps -> forall top t g ds e,
+  0 <= g_min g <= g_max g -> typed sub top t ->
+  mut_uniform ps g (flatten t) ds = Err e -> benign e.
+Proof. exact mut_uniform_safe. Qed.
+Print Assumptions C11_mut_uniform_safe.
+
+Theorem C11_mut_node_replacement_safe : forall sub ps, pset_ok sub ps -> forall top t ds e,
+  typed sub top t -> mut_node_replacement ps (flatten t) ds = Err e -> benign e.
+Proof. exact mut_node_replacement_safe. Qed.
+Print Assumptions C11_mut_node_replacement_safe.
+
+Theorem C11_mut_ephemeral_safe : forall mode l ds e,
+  mode <> EOther -> mut_ephemeral mode l ds = Err e -> benign e.
+Proof. exact mut_ephemeral_safe. Qed.
+Print Assumptions C11_mut_ephemeral_safe.
+
+Theorem C11_mut_insert_safe : forall sub, (forall a, sub a a = true) ->
+  (forall a b c, sub a b = true -> sub b c = true -> sub a c = true) ->
+  forall ps, pset_ok sub ps -> forall top t ds e,
+  typed sub top t -> mut_insert ps (flatten t) ds = Err e -> benign e.
+Proof. exact mut_insert_safe. Qed.
+Print Assumptions C11_mut_insert_safe.
+
+Theorem C11_mut_shrink_safe : forall sub top t ds e,
+  typed sub top t -> mut_shrink (flatten t) ds = Err e -> benign e.
+Proof. exact mut_shrink_safe. Qed.
+Print Assumptions C11_mut_shrink_safe.
+
+Theorem C11_static_limit_safe : forall k maxv op inputs ds e,
+  (forall e', op inputs ds = Err e' -> benign e') ->
+  (forall outs ds1, op inputs ds = Ok (outs, ds1) -> Forall (fun o => exists m, measure k o = Ok m) outs) ->
+  static_limit k maxv op inputs ds = Err e -> benign e.
+Proof. exact static_limit_safe. Qed.
+Print Assumptions C11_static_limit_safe.
 
 (* ---- the primitive-set tables: pset_ok is what `_add` establishes ---- *)
 (* ops = the sequence of _add calls (is-Primitive flag, node); primitives have arity >= 1, terminals 0 *)
